@@ -13,6 +13,7 @@ import json
 import multiprocessing as mp
 import os
 import random
+import re
 import sys
 import time
 import traceback
@@ -97,7 +98,14 @@ def sub_rng(seed, idx, stream):
 
 def make_scenario(prop, seed, idx, tier):
     rp, rw, rs = (sub_rng(seed, idx, s) for s in ("program", "world", "schedule"))
-    sc = prop.gen(rp, rw, tier)
+    from props import gen_dt
+
+    gen_dt.begin_run(sub_rng(seed, idx, "zones"))
+    try:
+        sc = prop.gen(rp, rw, tier)
+        sc["wide_zones"] = gen_dt.WIDE
+    finally:
+        gen_dt.end_run()
     sc["prop"] = prop.ID
     sc["origin"] = {"seed": seed, "run": idx, "tier": tier}
     cfg = TIERS[tier]
@@ -116,6 +124,9 @@ def make_scenario(prop, seed, idx, tier):
     return sc
 
 
+_ZONE_RE = re.compile(r'"([A-Za-z][A-Za-z0-9_+/\-]{2,40})"')
+
+
 def _h64(obj):
     return int.from_bytes(hashlib.blake2b(json.dumps(obj, sort_keys=True, default=str).encode(), digest_size=8).digest(), "big")
 
@@ -131,6 +142,7 @@ class Agg:
         self.harness = []
         self.clock_positions = set()
         self.labels = collections.Counter()
+        self.zones = set()
         self.known = {}
         self.solo = {}
         self.backend = None
@@ -143,6 +155,7 @@ class Agg:
             "clock": [min(self.clock_positions), max(self.clock_positions), len(self.clock_positions)] if self.clock_positions else None,
             "clock_set": list(self.clock_positions)[:200000],
             "labels": dict(self.labels),
+            "zones": sorted(self.zones),
             "known": self.known,
             "solo": self.solo,
             "backend": self.backend,
@@ -217,6 +230,9 @@ def _worker(args):
         if cross:
             agg.solo[idx] = engine.solo_digest(sc)
         agg.c["gran_" + sc["gran"]] += 1
+        if sc.get("wide_zones"):
+            agg.c["wide_zone_runs"] += 1
+        agg.zones.update(_ZONE_RE.findall(json.dumps([sc.get("pool"), sc["actors"], sc.get("world")])))
         agg.c["strat_" + sc["strategy"]["kind"]] += 1
         if run.capped:
             agg.c["step_cap_discards"] += 1
@@ -288,6 +304,14 @@ def _worker(args):
     cold.stop()
     faulthandler.cancel_dump_traceback_later()
     return agg.to_wire()
+
+
+def _named_zones(cands):
+    import zoneinfo
+
+    zoneinfo.reset_tzpath(to=[])
+    av = zoneinfo.available_timezones()
+    return sorted(z for z in cands if z in av)
 
 
 def _meta_job(pid):
@@ -398,21 +422,21 @@ def run_check(pid, tier, seed, workers=None, budget=None):
     ctx = mp.get_context("fork")
     wires = []
     harness = []
-    ext_path, ext_reason = None, "backend not selected by this property"
-    plan = [(None, w, workers) for w in range(workers)]
-    if meta.get("USES_EXTENSION") or meta.get("CROSS_BACKEND"):
-        from tools import build_ext
+    # Every property runs against the compiled helpers *rebuilt from /repo's current Rust sources* (never
+    # against whatever _pendulum*.so happens to lie in /repo/src: that file is git-ignored and may predate
+    # the sources).  Cross-backend properties pair workers 2j (compiled) / 2j+1 (pure Python) on the same
+    # run indices; the others give every fourth run index to the pure-Python helpers.
+    from tools import build_ext
 
-        ext_path = build_ext.ensure(build=True)
-        ext_reason = build_ext.reason
-        if ext_path and meta.get("CROSS_BACKEND") and workers >= 2:
-            half = workers // 2
-            # workers 2j (compiled) and 2j+1 (pure Python) execute the same run indices
-            plan = [("ext" if w % 2 == 0 else "py", w // 2, half) for w in range(half * 2)]
-        elif ext_path:
-            plan = [("ext", w, workers) for w in range(workers)]
-        else:
-            plan = [("py", w, workers) for w in range(workers)]
+    ext_path = build_ext.ensure(build=True)
+    ext_reason = build_ext.reason
+    if ext_path and meta.get("CROSS_BACKEND") and workers >= 2:
+        half = workers // 2
+        plan = [("ext" if w % 2 == 0 else "py", w // 2, half) for w in range(half * 2)]
+    elif ext_path:
+        plan = [("py" if w % 4 == 3 else "ext", w, workers) for w in range(workers)]
+    else:
+        plan = [("py", w, workers) for w in range(workers)]
     res = run_procs(_worker, [(pid, tier, seed, w, workers, budget, max_runs, os.environ.get("PYTHONHASHSEED"),
                                be, ext_path, start, stride) for w, (be, start, stride) in enumerate(plan)],
                     timeout=budget * 3 + 180)
@@ -424,6 +448,7 @@ def run_check(pid, tier, seed, workers=None, budget=None):
     c = collections.Counter()
     sites = collections.Counter()
     labels = collections.Counter()
+    zones_seen = set()
     distinct, programs, clock = set(), set(), set()
     viols, samples = [], []
     known_seen = {}
@@ -436,6 +461,7 @@ def run_check(pid, tier, seed, workers=None, budget=None):
         c.update(w["c"])
         sites.update(w["sites"])
         labels.update(w["labels"])
+        zones_seen.update(w.get("zones", ()))
         distinct.update(w["distinct"])
         programs.update(w["programs"])
         clock.update(w["clock_set"])
@@ -558,6 +584,8 @@ def run_check(pid, tier, seed, workers=None, budget=None):
             "same_function_overlaps": c["overlaps"],
             "step_cap_discards": c["step_cap_discards"],
             "granularity_runs": {"line": c["gran_line"], "evalbreaker": c["gran_evalbreaker"]},
+            "zone_swarm": {"wide_runs (zone lists re-drawn from every tzdata name, transitions back to 1900)": c["wide_zone_runs"],
+                           "distinct_named_zones_in_scenarios": len(_named_zones(zones_seen))},
             "strategy_runs": {k[6:]: v for k, v in c.items() if k.startswith("strat_")},
             "nemesis_events": {k[4:]: v for k, v in c.items() if k.startswith("nem_")},
             "barriers": {k[8:]: v for k, v in c.items() if k.startswith("barrier_")},
